@@ -28,6 +28,11 @@ func fuzzCase(focus string, data []byte, splice func(c *Case)) Case {
 }
 
 func fuzzRun(t *testing.T, c Case) {
+	if dir := os.Getenv("VERIF_C19_DUMP"); dir != "" && os.Getenv("VERIF_C19_DUMP_CASE") == "1" {
+		// debugging aid: the decoded scenario of the input about to run, as a TestC19 replay file
+		b, _ := json.Marshal(map[string]any{"property": "C19", "case": c})
+		_ = os.WriteFile(dir+"/fuzz-last-case.json", b, 0o644)
+	}
 	res := runCase(c, nil)
 	if res.Fail == nil {
 		return
